@@ -218,7 +218,8 @@ import os as _os
 _cases = _json.load(open(_os.path.join(_os.path.dirname(_os.path.abspath(__file__)), "..", "kani", "catalogue", "text_cases.json")))
 TEXT_CASES = _cases
 for c in _cases:
-    side("e3_" + c["name"], "e3", ["C08"] + (["C17"] if c["name"].startswith(("text_u_lui", "text_p_li")) else []),
+    side("e3_" + c["name"], "e3", ["C08", "C13"] + (["C17"] if c["name"].startswith(("text_u_lui", "text_p_li")) else []),
+         tier="quick",  # E3 decides all 162 texts in a few seconds: no reason to leave any to the thorough tier
          symbolic="31 register contents, pc, loaded words, label address: (_ BitVec 32)",
          desc="text '%s' (parsed natively by the real Lexer + ParserNode::try_from) has the effect of %s for all register contents" % (
              c["text"], "; ".join(e["k"] for e in c["expected"])),
@@ -353,7 +354,7 @@ def spelling_variants(text):
 for c in _cases:
     for vname, vtext in spelling_variants(c["text"]).items():
         vc = dict(c, name=c["name"] + "__" + vname, text=vtext)
-        side("e3_" + vc["name"], "e3", ["C13"], tier="quick" if c["tier"] == "quick" or vname in ("regs", "radix") else "thorough",
+        side("e3_" + vc["name"], "e3", ["C13"], tier="quick",
              symbolic="31 register contents, pc, loaded words, label address: (_ BitVec 32)",
              desc="spelling '%s' of '%s' (rewrite: %s), parsed natively by the real Lexer + ParserNode::try_from, has the effect of %s for all register contents" % (
                  vtext.replace("\t", "<tab>"), c["text"], vname, "; ".join(e["k"] for e in c["expected"])),
@@ -369,3 +370,7 @@ prop("C13",
              "line, anything after decoding (CFG, analyses, lints) and the token ranges diagnostics are attached to; statements "
              "outside the catalogue",
      assumptions=COMMON_ASSUME + ["the diagnostics depend on a statement only through the decoded node(s) (true by reading, not checked)"])
+
+# (lextok_unicode_escape - real Lexer::next() on a string literal whose \uXXXX escape has four symbolic hex digits - was
+# built and measured: 1500 s cap reached.  Together with the four-symbolic-layout-characters attempt this closes the
+# token level for C09: nothing that makes Lexer::next see a symbolic character fits.)
